@@ -1582,6 +1582,8 @@ class Executor:
     def bind_target(self, st, target, val):
         if isinstance(target, ast.Name):
             st.env[target.id] = val
+            if st.ghost.get("__alias__"):
+                alias_detach(st, target.id)     # re-binding a name ends its aliasing (opt-in, see alias_join)
             return
         if isinstance(target, (ast.Tuple, ast.List)):
             n = len(target.elts)
@@ -1651,11 +1653,42 @@ class Executor:
     def assign_lvalue(self, st, node, val):
         if isinstance(node, ast.Name):
             st.env[node.id] = val
+            for other in (st.ghost.get("__alias__") or {}).get(node.id, ()):
+                st.env[other] = val             # in-place mutation: every local alias of the container sees it
             return
         if isinstance(node, ast.Attribute):
             self.bind_target(st, ast.Attribute(value=node.value, attr=node.attr, ctx=ast.Store()), val)
             return
         raise Unsupported("mutation of a value that is not a variable or field")
+
+
+# ------------------------------------------------------------------------------------------------- local aliases
+# Containers (lists, sets, dicts) are VALUES in this engine, so `ys = xs; ys.append(v)` would leave xs unchanged.  A
+# contract may opt in (opts = {"track_aliases": True}) to have plain `name = name` assignments of container values
+# recorded as alias groups in st.ghost["__alias__"] (name -> frozenset of names bound to the same object; the dict is
+# replaced, never mutated, so that forked states stay independent).  Every in-place mutation goes through
+# Executor.assign_lvalue, which then updates the whole group; re-binding a name (bind_target) takes it out of its group.
+# Without the option no group is ever created and nothing changes.
+def alias_join(st, new_name, src_name):
+    al = dict(st.ghost.get("__alias__") or {})
+    group = set(al.get(src_name, frozenset([src_name]))) | {new_name}
+    for n in group:
+        al[n] = frozenset(group)
+    st.ghost["__alias__"] = al
+
+
+def alias_detach(st, name):
+    al = st.ghost.get("__alias__") or {}
+    if name not in al:
+        return
+    al = dict(al)
+    group = set(al.pop(name)) - {name}
+    for n in group:
+        if len(group) > 1:
+            al[n] = frozenset(group)
+        else:
+            al.pop(n, None)
+    st.ghost["__alias__"] = al
 
 
 # -------------------------------------------------------------------------------------------------
